@@ -240,6 +240,8 @@ TrServe ==
   /\ Ev.ev = "serve" /\ UNCHANGED <<rt, prevRt, lastEv, tt>>
   /\ Check("C05", R.panic = "none", <<"panic", Ev.method, Ev.path, R.panic>>)
   /\ Check("C03", (~rt.addOnly) => R.panic = "none", <<"panic after removal", Ev.method, Ev.path, R.panic>>)
+  \* on an add-only table C02 prescribes the outcome of every path: a request that faults instead has none
+  /\ Check("C02", rt.addOnly => R.panic = "none", <<"panic instead of the documented resolution", Ev.method, Ev.path, R.panic>>)
   /\ Check("C19", Ev.hasMirror => Ev.mirror = R, <<"facade dispatch", Ev.method, Ev.path, R, Ev.mirror>>)
   /\ IF R.panic # "none" THEN TRUE
      ELSE /\ Check("C13", R.rname = rt.cfg.name, <<"router name", R.rname>>)
